@@ -840,3 +840,41 @@ def shard(arg):
     compare(cases, I, res)
     res.samples = cases[:2]
     return res
+
+
+TAGCRIT = ['<', '>', '!', '-', '\n', 'a']
+ENTCRIT = ['&', '#', ';', 'x', '3', 'a', 'l', 't']
+
+
+def exhaustive_shard(arg):
+    """every string of length <= Lt over TAGCRIT through striptags / plaintext and of length <= Le
+    over ENTCRIT through stripentities (both keepxmlentities settings): laws + model"""
+    import itertools
+    idx, nshards, Lt, Le = arg
+    I = impls()
+    res = Result()
+    cases = []
+    i = 0
+    for n in range(Lt + 1):
+        for tup in itertools.product(TAGCRIT, repeat=n):
+            if i % nshards == idx:
+                t = ''.join(tup)
+                cases.append({'kind': 'w', 'op': 'striptags', 's': t})
+                cases.append({'kind': 'w', 'op': 'plaintext', 's': t, 'keep': bool(i & 16)})
+            i += 1
+    for n in range(Le + 1):
+        for tup in itertools.product(ENTCRIT, repeat=n):
+            if i % nshards == idx:
+                t = ''.join(tup)
+                cases.append({'kind': 'w', 'op': 'stripent', 's': t, 'keep': True})
+                cases.append({'kind': 'w', 'op': 'stripent', 's': t, 'keep': False})
+            i += 1
+    for c in cases:
+        res.evaluations += 1
+        f = oracle(c, I)
+        if f:
+            res.failures.append(f)
+        res.nontrivial.add(json.dumps(c, sort_keys=True))
+    compare(cases, I, res, stream='exhaustive-wide')
+    res.count('exhaustive-wide-strings', len(cases))
+    return res
